@@ -43,7 +43,8 @@
  *   own-crash             the child process died (ASan/UBSan/signal/timeout)
  *   own-list-pushat-leak  a refused List push_at left a constructed element behind (defect repaired by 4077d96)
  *   own-type-accepted     a call with a wrong-typed argument was not refused
- * Known-finding signatures: own-box-assign-shallow, own-list-resize-raw, own-array-assign-partial, own-array-new-partial;
+ * Known-finding signatures: own-box-assign-shallow (Box_Assign), own-box-ref-drops (Box_Ref: its own finding, KF-C05-box-ref-drops),
+ * own-list-resize-raw, own-array-assign-partial, own-array-new-partial;
  * kf-c12-array-push-type (a finding recorded under C12: Array_Push / Push_At / Concat grow the array before the element's
  * type check; printed — and the oracle suspended — when a replay enters that territory, never generated for C05).
  * The whole file runs in a forked child with alarm(); the parent reports how the child ended.
@@ -395,7 +396,7 @@ static void check_and_print(var* H, const char* outcome, int t1, int t2) {
     else if (ctx_op == OP_BASSIGN && n_live == contained + 1)
       kf("own-box-assign-shallow", "Box_Assign overwrote the pointer of a Box: the replaced pointee was not finalised");
     else if (ctx_op == OP_BREF && n_live == contained + 1)
-      kf("own-box-assign-shallow", "Box_Ref overwrote the pointer of a Box: the replaced pointee was not finalised");
+      kf("own-box-ref-drops", "Box_Ref overwrote the pointer of a Box that owned an object: the replaced pointee was not finalised (it stays live, owned by nothing)");
     else X("sig=own-live-count line=%zu what=%zu live elements but the containers hold %zu", cur_line, n_live, contained);
   }
 }
